@@ -615,6 +615,145 @@ def eval_case(ctx: Ctx, c: dict):
         elif ref_cmp(list(v[0].labels), best) != 0:
             ctx.fail("C06/namedict/deepest-match", f"query {q!r}: got {r}, expected {best!r}", rep)
         ctx.count("namedict")
+    elif k == "ndhist":
+        # a NameDict history: every step against the model and against a reference dict keyed by the canonical key
+        nd = dns.namedict.NameDict()
+        ref = {}  # canonical key -> [first-stored labels, value]
+        ck = lambda n: (is_abs(n), tuple(low(x) for x in n))
+        trace = []
+        toks = []
+        for st in c["script"]:
+            op, n = st[0], unhexl(st[1])
+            N = dns.name.Name(n)
+            what = f"step {len(trace)} {op} {n!r}"
+            toks += [op, enc_labels(n)] + ([str(st[2])] if op == "set" else [])
+            try:
+                if op == "set":
+                    nd[N] = st[2]
+                    if ck(n) in ref:
+                        ref[ck(n)][1] = st[2]
+                    else:
+                        ref[ck(n)] = [n, st[2]]
+                    trace.append(f"ok {len(nd)}")
+                elif op == "del":
+                    try:
+                        del nd[N]
+                        if ck(n) not in ref:
+                            ctx.fail("C06/namedict/delitem", f"{what}: deleted an absent key", rep)
+                        ref.pop(ck(n), None)
+                        trace.append(f"ok {len(nd)}")
+                    except KeyError:
+                        if ck(n) in ref:
+                            ctx.fail("C06/namedict/delitem", f"{what}: KeyError for a present key", rep)
+                        trace.append("err KeyError")
+                elif op == "has":
+                    got = nd.has_key(N)
+                    if got != (ck(n) in ref) or (N in nd) != got:
+                        ctx.fail("C06/namedict/has_key", f"{what}: {got}", rep)
+                    trace.append("true" if got else "false")
+                elif op == "item":
+                    try:
+                        v = nd[N]
+                        if ck(n) not in ref or ref[ck(n)][1] != v:
+                            ctx.fail("C06/namedict/getitem", f"{what}: {v}", rep)
+                        trace.append(f"ok {v}")
+                    except KeyError:
+                        if ck(n) in ref:
+                            ctx.fail("C06/namedict/getitem", f"{what}: KeyError for a present key", rep)
+                        trace.append("err KeyError")
+                elif op == "get":
+                    best = None
+                    for kk, (ls, v) in ref.items():
+                        if ls and ref_sub(n, ls) and (best is None or len(ls) > len(best[0])):
+                            best = (ls, v)
+                    if best is None and (False, ()) in ref:
+                        best = ([], ref[(False, ())][1])
+                    try:
+                        k2, v2 = nd.get_deepest_match(N)
+                        if best is None or ref_cmp(list(k2.labels), best[0]) != 0 or v2 != best[1] \
+                                or (len(k2) and list(k2.labels) != n[len(n) - len(k2):]):
+                            ctx.fail("C06/namedict/deepest-match", f"{what}: got {list(k2.labels)!r}={v2}, expected {best!r}", rep)
+                        trace.append(f"ok {enc_labels(k2.labels)}={v2}")
+                    except KeyError:
+                        if best is not None:
+                            ctx.fail("C06/namedict/deepest-match", f"{what}: KeyError, expected {best!r}", rep)
+                        trace.append("err KeyError")
+                else:
+                    raise ValueError(op)
+            except (dns.exception.DNSException, ValueError, TypeError, AttributeError, IndexError, RuntimeError) as e:
+                ctx.fail("C06/namedict/foreign-exception:" + type(e).__name__, f"{what}: {e!r}", rep)
+                trace.append("FOREIGN")
+                break
+            if len(nd) != len(ref) or sorted(ck(list(x.labels)) for x in nd) != sorted(ref):
+                ctx.fail("C06/namedict/keys", f"{what}: keys {[list(x.labels) for x in nd]!r}", rep)
+            if any(len(x) > nd.max_depth for x in nd):
+                ctx.fail("C06/namedict/max-depth", f"{what}: max_depth {nd.max_depth} below a key's label count", rep)
+        for bad in ("a.", 5, None, b"a"):
+            try:
+                nd[bad] = 1
+                ctx.fail("C06/namedict/non-name-key", f"NameDict accepted the key {bad!r}", rep)
+            except ValueError:
+                pass
+        ctx.corr("c06.nd " + " ".join(toks), "|".join(trace), c)
+        ctx.count("ndhist")
+    elif k == "api":
+        # the remaining entry points that must agree with the ones above: choose_relativity, the - and + operators,
+        # default / keyword arguments, split with a negative depth, copies and pickles
+        import copy
+        import pickle
+        a, o = unhexl(c["a"]), unhexl(c["o"])
+        A, O = dns.name.Name(a), dns.name.Name(o)
+        for origin, rel in ((O, True), (O, False), (None, True), (None, False), (dns.name.empty, True), (dns.name.empty, False)):
+            r, v = outcome(lambda: A.choose_relativity(origin, rel), fmt_name)
+            otok = "none" if origin is None else enc_labels(origin.labels)
+            ctx.corr(f"c06.choose {enc_labels(a)} {otok} {1 if rel else 0}", r, c)
+            if origin is None or len(origin) == 0:
+                exp = "ok " + enc_labels(a)
+            else:
+                exp = outcome(lambda: A.relativize(O) if rel else A.derelativize(O), fmt_name)[0]
+            if r != exp:
+                ctx.fail("C06/choose_relativity/agrees", f"choose_relativity({a!r}, {otok}, {rel}) -> {r}, relativize/derelativize say {exp}", rep)
+        if outcome(lambda: A.choose_relativity(O), fmt_name)[0] != outcome(lambda: A.choose_relativity(O, True), fmt_name)[0] \
+                or outcome(lambda: A.choose_relativity(), fmt_name)[0] != "ok " + enc_labels(a) \
+                or outcome(lambda: A.choose_relativity(origin=O, relativize=False), fmt_name)[0] != outcome(lambda: A.derelativize(O), fmt_name)[0]:
+            ctx.fail("C06/choose_relativity/defaults", f"default / keyword arguments of choose_relativity({a!r}, {o!r})", rep)
+        r1 = outcome(lambda: A - O, fmt_name)[0]
+        ctx.corr(f"n.relativize {enc_labels(a)} {enc_labels(o)}", r1, c)
+        if r1 != outcome(lambda: A.relativize(O), fmt_name)[0]:
+            ctx.fail("C06/operator/sub", f"{a!r} - {o!r} -> {r1}", rep)
+        r2 = outcome(lambda: A + O, fmt_name)[0]
+        ctx.corr(f"n.concat {enc_labels(a)} {enc_labels(o)}", r2, c)
+        if r2 != outcome(lambda: A.concatenate(O), fmt_name)[0]:
+            ctx.fail("C06/operator/add", f"{a!r} + {o!r} -> {r2}", rep)
+        if r2.startswith("ok") != ((not is_abs(a) or len(o) == 0) and wf(a + o)):
+            ctx.fail("C06/concatenate/spec", f"{a!r} + {o!r} -> {r2}", rep)
+        r3 = outcome(lambda: A + dns.name.empty, fmt_name)[0]
+        if r3 != "ok " + enc_labels(a) or outcome(lambda: dns.name.empty + A, fmt_name)[0] != "ok " + enc_labels(a):
+            ctx.fail("C06/concatenate/empty-is-neutral", f"{a!r} + empty -> {r3}", rep)
+        for d in sorted({-1, -len(a) - 1, len(a) + 1} | ({-len(a)} if a else set())):
+            r4 = outcome(lambda: A.split(d), lambda x: "split")[0]
+            if r4 != "err ValueError":
+                ctx.fail("C06/split/out-of-range-depth", f"split({a!r}, {d}) -> {r4}", rep)
+        for fn in ("successor", "predecessor"):
+            x0 = outcome(lambda: getattr(A, fn)(O), fmt_name)[0]
+            x1 = outcome(lambda: getattr(A, fn)(O, True), fmt_name)[0]
+            x2 = outcome(lambda: getattr(A, fn)(origin=O, prefix_ok=False), fmt_name)[0]
+            x3 = outcome(lambda: getattr(A, fn)(O, False), fmt_name)[0]
+            ctx.corr(f"n.{fn[:4]} {enc_labels(a)} {enc_labels(o)} 1", x0, c)
+            if x0 != x1 or x2 != x3:
+                ctx.fail(f"C06/{fn}/default-prefix_ok", f"{fn}({a!r}, {o!r}): default {x0} vs True {x1}; keyword False {x2} vs {x3}", rep)
+        for what, B in (("copy", copy.copy(A)), ("deepcopy", copy.deepcopy(A)), ("pickle", pickle.loads(pickle.dumps(A))),
+                        ("Name(labels)", dns.name.Name(A.labels)), ("Name(str labels)", None)):
+            if B is None:
+                try:
+                    B = dns.name.Name([l.decode("ascii") for l in a])
+                except (UnicodeDecodeError, dns.exception.DNSException):
+                    continue
+            if list(B.labels) != a or not (B == A) or B != A or hash(B) != hash(A) or tuple(B.fullcompare(A)) != (3, 0, len(a)):
+                ctx.fail("C06/value/copies-equal", f"{what} of {a!r} is {list(B.labels)!r}", rep)
+        if (A == dns.name.root) != (a == [b""]) or (A == dns.name.empty) != (a == []) or (not A) != (len(a) == 0):
+            ctx.fail("C06/value/constants", f"{a!r} vs dns.name.root / dns.name.empty", rep)
+        ctx.count("api")
     elif k == "foreign-operand":
         a = unhexl(c["a"])
         A = dns.name.Name(a)
@@ -714,6 +853,47 @@ def generate(ctx: Ctx, scale, rng):
         dele = [hexl(rng.choice(cl))] if rng.chance(1, 3) else []
         c = {"kind": "namedict", "names": [hexl(x) for x in cl], "q": hexl(q), "delete": dele}
         ctx.case(("namedict", str(cl), tuple(q), str(dele)))
+        eval_case(ctx, c)
+    for _ in range(n(400)):
+        cl = cluster(rng, rng.range(2, 7))
+        if rng.chance(1, 2):
+            cl.append([])
+        script = []
+        for _ in range(rng.range(3, 25)):
+            m = rng.below(10)
+            nm = rng.choice(cl)
+            if rng.chance(1, 3):
+                nm = [bytes(swap_octet(ch) for ch in l) for l in nm]
+            if m <= 2:
+                script.append(["set", hexl(nm), rng.below(100)])
+            elif m <= 4:
+                script.append(["del", hexl(nm)])
+            elif m == 5:
+                script.append(["has", hexl(nm)])
+            elif m == 6:
+                script.append(["item", hexl(nm)])
+            else:
+                q = nm if rng.chance(1, 3) else (variant(rng, nm) if rng.chance(2, 3) else [gen_label(rng, 5)] + nm)
+                if wf(q):
+                    script.append(["get", hexl(q)])
+        c = {"kind": "ndhist", "script": script}
+        ctx.case(("ndhist", json.dumps(script)), sample=c)
+        eval_case(ctx, c)
+    for _ in range(n(500)):
+        o = gen_labels(rng, absolute=rng.chance(5, 6), budget=rng.choice([10, 40, 120]))
+        m = rng.below(5)
+        if m <= 1:
+            a = gen_labels(rng, absolute=False, budget=max(2, 255 - sum(len(x) + 1 for x in o) + rng.choice([0, 0, 3]))) + o
+        elif m == 2:
+            a = gen_labels(rng, absolute=False, budget=rng.choice([20, 255]))
+        elif m == 3:
+            a = rng.choice([[], [b""], o])
+        else:
+            a = variant(rng, o)
+        if not wf(a):
+            continue
+        c = {"kind": "api", "a": hexl(a), "o": hexl(o)}
+        ctx.case(("api", tuple(a), tuple(o)), sample=c)
         eval_case(ctx, c)
     for _ in range(n(40)):
         a = gen_labels(rng)
